@@ -10,11 +10,13 @@ Observation only:
 * `api(...)` runs one public call in the calling thread and returns
   `(result, exception)`.
 * `classify(exc)` -> allowed?  `signature(exc)` -> mechanism string
-  `ExcType@module.function[->callee][<-module.parser]` built from the innermost
-  frames inside `paramiko/` (core.exc_signature), extended with the nearest
-  enclosing *parser* frame when the raise site is a shared helper
-  (`message.py`, `util.py`): the helper is where it raises, the parser is which
-  peer field was trusted.  Never contains values, lengths or seeds.
+  `ExcType@module.function[->callee][<-module.parser][<-module.handler]` built
+  from the innermost frames inside `paramiko/` (core.exc_signature), extended
+  with the nearest enclosing *parser* frame when the raise site is a shared
+  decoding helper (`message.py`, `util.py`), and with the protocol handler when
+  that parser is one of the key classes (shared by kex and userauth): the
+  helper is where it raises, the outer frames say which peer field was trusted
+  by whom.  Never contains values, lengths or seeds.
 """
 import os
 import socket
@@ -25,7 +27,8 @@ import paramiko
 
 from vf import core
 
-HELPER_MODULES = ("message", "util")
+HELPER_MODULES = ("message", "util")  # decoding helpers
+KEY_MODULES = ("pkey", "rsakey", "ecdsakey", "ed25519key", "dsskey")  # blob parsers shared by kex and userauth
 _VF_ROOT = os.path.dirname(os.path.abspath(__file__)) + os.sep
 
 ALLOWED = (paramiko.SSHException, EOFError, OSError, socket.error)
@@ -52,13 +55,23 @@ def signature(exc, tree=None):
     pf = [f for f in _frames(exc) if f.filename.startswith(root)]
     if not pf:
         return base
-    inner_mod = os.path.basename(pf[-1].filename)[:-3]
-    if inner_mod in HELPER_MODULES:
-        for f in reversed(pf):
-            mod = os.path.basename(f.filename)[:-3]
-            if mod not in HELPER_MODULES:
-                return "%s<-%s.%s" % (base, mod, f.name)
-    return base
+    mods = [os.path.basename(f.filename)[:-3] for f in pf]
+    sig = base
+    i = len(pf) - 1
+    if mods[i] in HELPER_MODULES:
+        # which parser handed peer bytes to the decoding helper
+        while i >= 0 and mods[i] in HELPER_MODULES:
+            i -= 1
+        if i < 0:
+            return sig
+        sig += "<-%s.%s" % (mods[i], pf[i].name)
+    if mods[i] in KEY_MODULES:
+        # which protocol handler handed a peer blob to the key classes
+        while i >= 0 and mods[i] in KEY_MODULES + HELPER_MODULES:
+            i -= 1
+        if i >= 0:
+            sig += "<-%s.%s" % (mods[i], pf[i].name)
+    return sig
 
 
 def describe(exc):
